@@ -119,6 +119,20 @@ def build_requests(tier):
                  "data": "GET /PYGOPHERD-HTTPPROTO-ICONS/generic.gif HTTP/1.0\r\n\r\n"})
     reqs.append({"name": "gemini:input-prompt", "proto": "gemini", "kind": "input-prompt", "tls": True, "outside": True,
                  "data": "gemini://gopher.example/GEMINI-QUERY/menu\r\n"})
+    # requests that make the CLASSIFICATION phase (ProtocolMultiplexer.getProtocol, before the try of
+    # GopherRequestHandler.handle) read from the connection: header blocks of various sizes, an
+    # oversized header line, the WAP auto-detection headers
+    def headers(n, width=20):
+        return "".join("X-Header-%d: %s\r\n" % (i, "v" * width) for i in range(n))
+    for label, block in [("0", ""), ("1", headers(1)), ("100", headers(100)), ("101", headers(101)),
+                         ("1000", headers(1000)), ("long-line", headers(1, 70000)),
+                         ("wap-accept", "Accept: text/html, text/vnd.wap.wml\r\n"),
+                         ("wap-profile", "X-Wap-Profile: http://example/p.xml\r\n")]:
+        for sel, kind in (("/small.txt", "document"), ("/no-such-thing", "error-page")):
+            is_wap = label.startswith("wap-")
+            reqs.append({"name": f"http:{kind}:headers-{label}", "proto": "wap" if is_wap else "http",
+                         "kind": f"{kind}+headers-{label}", "tls": False, "outside": False,
+                         "data": "GET %s HTTP/1.0\r\n%s\r\n" % (sel, block)})
     reqs.append({"name": "gopher:search", "proto": "gopher", "kind": "menu", "tls": False, "outside": False,
                  "data": "/menu\tneedle\r\n"})
     return reqs
@@ -149,6 +163,11 @@ def live_job(tier):
     data, tls = gen.request_bytes("http", "/" + LIVE_DOC)
     clients.append({"name": "http:/big.bin:stall", "proto": "http", "selector": "/" + LIVE_DOC, "data": lat(data),
                     "tls": False, "how": "stall", "read_before": 1000})
+    # a client that floods the header block (read during classification) and goes away
+    for n in (101, 2000):
+        flood = "GET /%s HTTP/1.0\r\n%s\r\n" % (LIVE_DOC, "".join("X-H%d: v\r\n" % i for i in range(n)))
+        clients.append({"name": "http:/big.bin:headers-%d:reset@0" % n, "proto": "http", "selector": "/" + LIVE_DOC,
+                        "data": flood, "tls": False, "how": "reset", "read_before": 0})
     return {"op": "c20_live", "tree": t, "config": CONFIG, "clients": clients, "timeout": 1}
 
 
@@ -175,7 +194,12 @@ def live_oracle(client, c):
 
 
 def coq_case(rq, entry, case):
-    acts = "[" + "; ".join(ACT[ch] for ch in entry["events"] if ch in ACT) + "]"
+    ev = entry["events"]
+    cut = ev.index("|") + 1 if "|" in ev else 0
+    def lit_(chars):
+        items = [ACT[ch] for ch in chars if ch in ACT]
+        return "[" + "; ".join(items) + "]" if items else "(@nil action)"
+    acts = "(%s, %s)" % (lit_(ev[:cut]), lit_(ev[cut:]))
     recs = "[" + "; ".join("(%s, %s)" % (LOGCLS.get(c, "LOther"), "true" if a else "false")
                            for c, a, _ in (case["records"] or [])) + "]"
     span = "None" if case.get("span") is None else "(Some %d%%nat)" % case["span"]
